@@ -2,9 +2,11 @@
    (ircutils._hostmaskPatternEqual, src/ircutils.py:171-208) and of the user
    lookup state machine (IrcUser.checkHostmask/addAuth/clearAuth,
    UsersDictionary.getUserId/setUser/delUser/newUser/invalidateCache,
-   src/ircdb.py:271-349, 688-897).  The clock and the login timeout are inputs.
-   The hostmask cache is modelled in its forward direction (hostmask -> id);
-   the reverse index only serves invalidation.  No proofs here. *)
+   src/ircdb.py:271-349, 688-897), as repaired for findings C04.F5 (getUserId
+   re-checks a cached id with checkHostmask) and C04.F22 (setUser first drops
+   the cache entries of the hostmasks in user.auth).  The clock and the login
+   timeout are inputs.  The hostmask cache is modelled in its forward direction
+   (hostmask -> id); the reverse index only serves invalidation.  No proofs here. *)
 From Coq Require Import List NArith ZArith Bool.
 Import ListNotations.
 Require Import Base.Wire Base.PyStr.
@@ -168,23 +170,21 @@ Fixpoint remove_offending (us : list (N * user)) (ids : list (N * hres)) : list 
       end
   end.
 
-Definition getUserId (timeout now : Z) (s : st) (h : str) : st * res N :=
-  match dict_get h (s_hcache s) with
-  | Some id => (s, Ok id)
-  | None =>
-      let '(us, ids) := scan_users timeout now h (s_users s) in
-      match ids with
-      | [] => (with_users s us, Raise KeyError)
-      | [(id, _)] =>
-          let rev := match nget id (s_hrev s) with
-                     | Some l => nset id (if existsb (seq_eqb h) l then l else l ++ [h]) (s_hrev s)
-                     | None => nset id [h] (s_hrev s)
-                     end in
-          (St us (s_hcache s ++ [(h, id)]) rev (s_ncache s) (s_nrev s) (s_next s), Ok id)
-      | _ =>
-          let '(us', e) := remove_offending us ids in
-          (with_users s us', Raise e)
-      end
+(* the `except KeyError:` body of getUserId: every user's checkHostmask, then
+   cache a unique match *)
+Definition lookup_miss (timeout now : Z) (s : st) (h : str) : st * res N :=
+  let '(us, ids) := scan_users timeout now h (s_users s) in
+  match ids with
+  | [] => (with_users s us, Raise KeyError)
+  | [(id, _)] =>
+      let rev := match nget id (s_hrev s) with
+                 | Some l => nset id (if existsb (seq_eqb h) l then l else l ++ [h]) (s_hrev s)
+                 | None => nset id [h] (s_hrev s)
+                 end in
+      (St us (dict_set h id (s_hcache s)) rev (s_ncache s) (s_nrev s) (s_next s), Ok id)
+  | _ =>
+      let '(us', e) := remove_offending us ids in
+      (with_users s us', Raise e)
   end.
 
 (* cache-free recomputation: who recognises h right now (no side effects) *)
@@ -247,6 +247,34 @@ Definition invalidate_h (s : st) (h : str) : res st :=
       end
   end.
 
+(* invalidateCache(hostmask=m) for every login (when, m) of a list *)
+Definition invalidate_auth (s : st) (auth : list (Z * str)) : res st :=
+  fold_left (fun (acc : res st) e => do a <- acc; invalidate_h a (snd e)) auth (Ok s).
+
+(* getUserId(hostmask): a cached id is answered only if that account's
+   checkHostmask still accepts the hostmask (which also drops its expired
+   logins); otherwise the entry is invalidated and the `raise KeyError` lands
+   in the recomputation.  self.users[id] on a vanished id is a KeyError too.
+   (A KeyError out of invalidateCache itself would be caught by the same
+   handler with the cache half-edited; that needs an inconsistent cache and the
+   model then recomputes from the unedited one.) *)
+Definition getUserId (timeout now : Z) (s : st) (h : str) : st * res N :=
+  match dict_get h (s_hcache s) with
+  | Some id =>
+      match uget id (s_users s) with
+      | Some u =>
+          let '(u', x) := checkHostmask false timeout now u h true in
+          let s1 := with_users s (uset id u' (s_users s)) in
+          if truthy x then (s1, Ok id)
+          else match invalidate_h s1 h with
+               | Ok s2 => lookup_miss timeout now s2 h
+               | Raise _ => lookup_miss timeout now s1 h
+               end
+      | None => lookup_miss timeout now s h
+      end
+  | None => lookup_miss timeout now s h
+  end.
+
 (* the overlap loops of setUser for one hostmask of the user being set *)
 Fixpoint overlap_one (timeout now : Z) (self : N) (hm : str) (us : list (N * user))
   : list (N * user) * bool :=
@@ -279,7 +307,11 @@ Definition rollback (orig : option user) (id : N) (us : list (N * user)) : list 
 Definition setUser (timeout now : Z) (s : st) (id : N) (u : user) : st * res unit :=
   let orig := uget id (s_users s) in
   let us0 := match orig with Some _ => uset id u (s_users s) | None => s_users s end in
-  let s0 := St us0 (s_hcache s) (s_hrev s) (s_ncache s) (s_nrev s) (N.max (s_next s) id) in
+  let s00 := St us0 (s_hcache s) (s_hrev s) (s_ncache s) (s_nrev s) (N.max (s_next s) id) in
+  (* for (when, hostmask) in user.auth: self.invalidateCache(hostmask=hostmask) *)
+  match invalidate_auth s00 (u_auth u) with
+  | Raise e => (s00, Raise e)
+  | Ok s0 =>
   let '(s1, r) := getUserIdByName s0 (u_name u) in
   let dupname := match r with Ok other => negb (N.eqb other id) | Raise _ => false end in
   if dupname then (with_users s1 (rollback orig id (s_users s1)), Raise DuplicateHostmask)
@@ -290,7 +322,8 @@ Definition setUser (timeout now : Z) (s : st) (id : N) (u : user) : st * res uni
     else match invalidate_id s2 id with
          | Ok s3 => (with_users s3 (uset id u (s_users s3)), Ok tt)
          | Raise e => (s2, Raise e)
-         end.
+         end
+  end.
 
 (* delUser: same cache removal pattern as invalidateCache(id) *)
 Definition delUser (s : st) (id : N) : st * res unit :=
@@ -319,12 +352,24 @@ Definition opAddAuth (now : Z) (s : st) (id : N) (h : str) : st * res unit :=
       end
   end.
 
+(* what every caller of addAuth does (User.identify, GPG, NickAuth):
+   user.addAuth(h) on the stored object, then users.setUser(user) *)
+Definition opIdentify (timeout now : Z) (s : st) (id : N) (h : str) : st * res unit :=
+  match uget id (s_users s) with
+  | None => (s, Raise KeyError)
+  | Some u =>
+      match addAuth now u h with
+      | Ok u' => setUser timeout now (with_users s (uset id u' (s_users s))) id u'
+      | Raise e => (s, Raise e)
+      end
+  end.
+
 (* user.clearAuth(): invalidateCache(hostmask=...) for each login, then auth = [] *)
 Definition opClearAuth (s : st) (id : N) : st * res unit :=
   match uget id (s_users s) with
   | None => (s, Raise KeyError)
   | Some u =>
-      let r := fold_left (fun (acc : res st) e => do a <- acc; invalidate_h a (snd e)) (u_auth u) (Ok s) in
+      let r := invalidate_auth s (u_auth u) in
       match r with
       | Ok s1 => (with_users s1 (uset id (User (u_name u) (u_masks u) [] (u_secure u)) (s_users s1)), Ok tt)
       | Raise e => (s, Raise e)      (* partial invalidations are not kept by the model: see harness note *)
@@ -349,7 +394,7 @@ Definition step (timeout now : Z) (s : st) (o : op) : st * res N :=
   | OSet id u => let '(s', r) := setUser timeout now s id u in (s', unit_res r)
   | ODel id => let '(s', r) := delUser s id in (s', unit_res r)
   | ONew => let '(s', id) := newUser s in (s', Ok id)
-  | OAuth id h => let '(s', r) := opAddAuth now s id h in (s', unit_res r)
+  | OAuth id h => let '(s', r) := opIdentify timeout now s id h in (s', unit_res r)
   | OClear id => let '(s', r) := opClearAuth s id in (s', unit_res r)
   end.
 
